@@ -246,7 +246,7 @@ class Chain:
         return any(p > n for p in self.views)
 
     def need(self, end):
-        self.needs_end = max(self.needs_end, end)
+        self.needs_end = max(self.needs_end, min(end, INF))
 
 
 class Spec:
@@ -503,6 +503,8 @@ class Spec:
             if k in CONTAINER_OPS:
                 ch.modelled = False
                 n = self.rd(p, ls)
+                if p + ls + n >= 1 << 63:
+                    ch.huge = True
                 mx = 256 ** ls - 1
                 # documented: the buffer holds size() elements (and the elements added)
                 ch.need(p + ls + n)
@@ -528,6 +530,8 @@ class Spec:
                     ch.need(p + ls + max(n, st[1]))
                 return None
             n = self.rd(p, ls)
+            if p + ls + n >= 1 << 63:
+                ch.huge = True
             ch.need(p + ls + n)
             if k in ('e', 'w') and st[1] >= n:
                 ch.pre_ok = False
